@@ -24,6 +24,7 @@ type ClientServerStream struct {
 	trailer    metadata.MD
 	closed     context.CancelFunc
 	closeErr   error
+	closedC    chan struct{} // closed by Close before ctx is cancelled: tells the end of the call from a caller that gave up
 }
 
 func NewClientServerStream(ctx context.Context) *ClientServerStream {
@@ -32,6 +33,7 @@ func NewClientServerStream(ctx context.Context) *ClientServerStream {
 		ctx:        newCtx,
 		closed:     closed,
 		headerC:    make(chan struct{}),
+		closedC:    make(chan struct{}),
 		serverSend: make(chan any),
 		clientSend: make(chan any),
 	}
@@ -41,6 +43,7 @@ func (s *ClientServerStream) Close(err error) {
 	// headers that were set but never sent travel with the end of the stream, as in gRPC
 	_ = (&serverStream{s}).SendHeader(nil)
 	s.closeErr = err
+	close(s.closedC)
 	close(s.serverSend)
 	s.closed()
 }
@@ -51,6 +54,17 @@ func (s *ClientServerStream) closeErrLocked() error {
 		return io.EOF
 	}
 	return s.closeErr
+}
+
+// doneErr is what an operation returns when ctx ends under it: the close error (or io.EOF) once
+// the call is over, otherwise the reason ctx ended - the caller cancelled or its deadline passed.
+func (s *ClientServerStream) doneErr() error {
+	select {
+	case <-s.closedC:
+		return s.closeErrLocked()
+	default:
+		return s.ctx.Err()
+	}
 }
 
 func (s *ClientServerStream) Client() grpc.ClientStream {
@@ -97,7 +111,7 @@ func (c *clientStream) Context() context.Context {
 func (c *clientStream) SendMsg(m any) error {
 	select {
 	case <-c.ctx.Done():
-		return c.closeErrLocked()
+		return c.doneErr()
 	case c.clientSend <- m:
 		return nil
 	}
@@ -160,7 +174,7 @@ func (s *serverStream) SendMsg(m any) error {
 	s.sendHeaderIfNeeded()
 	select {
 	case <-s.ctx.Done():
-		return s.closeErrLocked()
+		return s.doneErr()
 	case s.serverSend <- m:
 		return nil
 	}
@@ -169,7 +183,7 @@ func (s *serverStream) SendMsg(m any) error {
 func (s *serverStream) RecvMsg(m any) error {
 	select {
 	case <-s.Context().Done():
-		return s.closeErrLocked()
+		return s.doneErr()
 	case val, ok := <-s.clientSend:
 		if !ok {
 			return io.EOF
